@@ -350,9 +350,9 @@ def check_at(path, case):
 
 
 SUBCHECKS = [
-    Sub("topology", check, strategy=lambda tier: case_strategy(tier), quick=1500, thorough=30000,
+    Sub("topology", check, strategy=lambda tier: case_strategy(tier), quick=2400, thorough=90000,
         min_share={"path>1000": 0.01, "layout:repeat-bonds": 0.08, "numbering:gaps": 0.3}),
-    Sub("rewrite", check_rewrite, strategy=lambda tier: case_strategy("quick", with_variant=True), quick=400, thorough=6000,
+    Sub("rewrite", check_rewrite, strategy=lambda tier: case_strategy("quick", with_variant=True), quick=800, thorough=30000,
         min_share={"same-size": 0.5, "graph-differs": 0.3},
         note="the same path rewritten with another topology of equal byte size (and equal mtime) between loads"),
 ]
